@@ -144,7 +144,7 @@ def _chk_vcf(args, res, old):
             return "segment %r (ncopies %d, expected %d): %s" % (tuple(r)[:3], nc[k], exp[k], "; ".join(problems))
 
 
-contract("cnvlib/export.py::segments2vcf", params=dict(segments=ObjT("CopyNumArray")), bounded=True, gen=_gen_vcf,
+contract("cnvlib/export.py::segments2vcf#rt", params=dict(segments=ObjT("CopyNumArray")), bounded=True, gen=_gen_vcf,
          call=lambda fn, a: list(fn(a["segments"], a["ploidy"], a["male_ref"], a["build"], a["female"])),
          props=("C20",), checks=[("one_record_per_variant_segment", _chk_vcf)])
 
@@ -338,4 +338,67 @@ contract(
     canaries=[("ploidy_ne_to_gt", 'out["ncopies"] != ploidy', 'out["ncopies"] > ploidy'),
               ("variant_uses_ploidy", 'out = out[out["ncopies"] != exp_copies]', 'out = out[out["ncopies"] != ploidy]'),
               ("round_to_trunc", ".round()", "")],
+)
+
+
+# ----------------------------------------------------------------------------- deductive: export vcf records
+# The generator's output is described through the ghost sequence src_: src_[j][0] is the index of the for-loop
+# iteration (= segment row) in which the j-th record was yielded.
+_SEGV = ObjT("CopyNumArray", data=TabT(index="range", chromosome=CHROM, start=Int, end=Int, gene=GENE, log2=Real,
+                                       probes=Int, cn=Int), meta=DictT())
+_XV = _X_K.replace("cnarr", "segments")
+_VAR = "(segments.data.cn[k] != XV and segments.data.probes[k] >= 0)".replace("XV", _XV)
+_F_SITE = ("(out_[j][0] == segments.data.chromosome[k] and "
+           "out_[j][1] == ite(segments.data.start[k] == 0, 1, segments.data.start[k]) and "
+           "out_[j][4] == ite(segments.data.cn[k] < XV, '<DEL>', '<DUP>'))").replace("XV", _XV)
+_F_INFO = ("(out_[j][7] == 'IMPRECISE;SVTYPE=' + ite(segments.data.cn[k] < XV, 'DEL', 'DUP') + ';END=' + str(segments.data.end[k]) + "
+           "';SVLEN=' + str(ite(segments.data.cn[k] < XV, -(segments.data.end[k] - segments.data.start[k]), "
+           "segments.data.end[k] - segments.data.start[k])) + ';FOLD_CHANGE=' + fstr(exp2(segments.data.log2[k])) + "
+           "';FOLD_CHANGE_LOG=' + fstr(segments.data.log2[k]) + ';PROBES=' + str(segments.data.probes[k]))").replace("XV", _XV)
+_F_GT = ("(out_[j][9] == ite(segments.data.cn[k] > XV, '0/1:0:' + str(segments.data.cn[k]) + ':' + str(segments.data.probes[k]), "
+         "ite(segments.data.cn[k] == 0, '1/1', '0/1') + ':' + str(segments.data.probes[k])))").replace("XV", _XV)
+
+
+def _per_record(body, seq="out_", hi="i_"):
+    return ("forall(0, len(SEQ), lambda j: let(lambda k: BODY, src_[j][0]))"
+            .replace("BODY", body).replace("out_", seq).replace("SEQ", seq))
+
+
+contract(
+    "cnvlib/export.py::segments2vcf",
+    params=dict(segments=_SEGV, ploidy=Int, is_haploid_x_reference=Bool, diploid_parx_genome=BUILD, is_sample_female=Bool),
+    yields=TupT(CHROM, Int, Str, Str, Str, Str, Str, Str, Str, Str),
+    requires=["ploidy >= 1"],
+    loops={0: dict(inv=[
+        ("records_come_from_variants", _per_record("0 <= k and k < i_ and " + _VAR)),
+        ("site_fields", _per_record(_F_SITE)),
+        ("info_field", _per_record(_F_INFO)),
+        ("sample_field", _per_record(_F_GT)),
+        ("in_order", "forall(0, len(out_), lambda a: forall(0, len(out_), lambda b: implies(a < b, src_[a][0] < src_[b][0])))"),
+        ("every_variant_listed", "forall(0, i_, lambda k: implies(VAR, exists(0, len(out_), lambda j: src_[j][0] == k)))"
+                                 .replace("VAR", _VAR)),
+    ])},
+    ensures=[
+        # one record per segment whose copy number differs from the expected one (and no others), in segment order
+        ("records_come_from_variants", _per_record("0 <= k and k < len(segments.data) and " + _VAR, "result")),
+        # CHROM, POS = start (1 where start is 0), ALT = <DEL> below / <DUP> above the expected copy number
+        ("site_fields", _per_record(_F_SITE, "result")),
+        # END = end, SVTYPE, SVLEN = +-(end - start) with the matching sign
+        ("info_field", _per_record(_F_INFO, "result")),
+        # the sample field carries the copy number for gains
+        ("sample_field", _per_record(_F_GT, "result")),
+        ("in_order", "forall(0, len(result), lambda a: forall(0, len(result), lambda b: implies(a < b, src_[a][0] < src_[b][0])))"),
+        ("every_variant_listed", "forall(0, len(segments.data), lambda k: implies(VAR, exists(0, len(result), lambda j: src_[j][0] == k)))"
+                                 .replace("VAR", _VAR)),
+    ],
+    ghost=dict(frame_exempt_keys=("chr_x", "chr_y"), abstract_strings=True),
+    props=("C20",), domain="skip",
+    canaries=[("pos_no_shift", "segments.start.replace(0, 1)", "segments.start"),
+              ("loss_sign", "svlen[idx_losses] *= -1", "svlen[~idx_losses] *= -1"),
+              ("del_dup_swapped", 'out_dframe.loc[idx_losses, "svtype"] = "DEL"', 'out_dframe.loc[~idx_losses, "svtype"] = "DEL"'),
+              ("skip_gains", "out_row.ncopies == abs_exp", "out_row.ncopies >= abs_exp"),
+              ("end_is_start", 'f"END={out_row.end}"', 'f"END={out_row.start}"'),
+              ("cn_dropped_from_gain", 'f"0/1:0:{out_row.ncopies}:{out_row.probes}"', 'f"0/1:0:{out_row.probes}"')],
+    notes="text is abstract here: concatenation and int/float-to-text are uninterpreted functions (equal parts in equal "
+          "order give equal text), so the clauses compare the emitted fields with the spec's own concatenation of the same parts",
 )
